@@ -53,11 +53,15 @@ func drawSettingsList(t *rapid.T) []Setting {
 		var v uint32
 		switch id {
 		case 2:
-			v = 0
+			v = uint32(rapid.IntRange(0, 1).Draw(t, "push"))
 		case 4:
 			v = uint32(rapid.IntRange(65535, 1<<24).Draw(t, "iws"))
 		case 5:
 			v = uint32(rapid.IntRange(16384, 1<<20).Draw(t, "mfs"))
+			if drawBool(t, "mfsedge", 30) {
+				// the ends of the legal range (RFC 9113 6.5.2: 2^14 .. 2^24-1)
+				v = []uint32{16384, 1<<24 - 1, 1<<24 - 2, 16385}[rapid.IntRange(0, 3).Draw(t, "mfsedgev")]
+			}
 		case 3:
 			v = uint32(rapid.IntRange(1, 1000).Draw(t, "mcs"))
 		case 8:
@@ -163,6 +167,10 @@ func DrawH2Script(t *rapid.T, o H2GenOpts) *H2Script {
 			}
 			if drawBool(t, "trailers", 40) {
 				trailers = [][2]string{{"x-trailer-a", "1"}, {"x-trailer-b", r.Tag}}
+				if drawBool(t, "emptytrailers", 25) {
+					// a trailer section with no fields: a HEADERS frame with an empty header block ends the stream
+					trailers = [][2]string{}
+				}
 			}
 		}
 		var cuts []int
@@ -247,7 +255,9 @@ func h2RequestWithTrailers(enc *HEnc, stream uint32, r ReqSpec, perm []string, p
 	for _, kv := range r.Header {
 		fields = append(fields, kv)
 	}
-	fields = append(fields, [2]string{"trailer", "x-trailer-a, x-trailer-b"})
+	if len(trailers) > 0 {
+		fields = append(fields, [2]string{"trailer", "x-trailer-a, x-trailer-b"})
+	}
 	fs := HeadersFrames(stream, enc.Block(fields), false, prio, -1, cuts)
 	half := len(r.Body) / 2
 	fs = append(fs, DataFrame(stream, r.Body[:half], false, -1), DataFrame(stream, r.Body[half:], false, -1))
